@@ -834,8 +834,15 @@ impl Mp4TrackWriter {
         if self.trak.mdia.mdhd.duration > (u32::MAX as u64) {
             self.trak.mdia.mdhd.version = 1
         }
-        self.trak.tkhd.duration +=
-            dur as u64 * movie_timescale as u64 / self.trak.mdia.mdhd.timescale as u64;
+        // Derive the track header duration from the summed media duration: accumulating the
+        // per-sample quotients would lose up to one movie tick per sample.
+        let movie_dur = self.trak.mdia.mdhd.duration as u128 * movie_timescale as u128
+            / self.trak.mdia.mdhd.timescale as u128;
+        self.trak.tkhd.duration = if movie_dur > u64::MAX as u128 {
+            u64::MAX
+        } else {
+            movie_dur as u64
+        };
         if self.trak.tkhd.duration > (u32::MAX as u64) {
             self.trak.tkhd.version = 1
         }
